@@ -72,6 +72,10 @@ struct World {
     vh::Rng& rng;
     std::vector<CTxDestination> recv; //!< receive addresses handed out by the wallet
     std::vector<int> recv_type;
+    //! --p aps_sffo=1: allow grouped (avoid-partial-spends) selection for subtract-fee requests close to the whole balance. Off by default: in that
+    //! shape the avoid-partial-spends retry of CreateTransaction can fail and trip `Assume(!m_subtract_fee_outputs)` (spend.cpp, error path of
+    //! CreateTransactionInternal), which this build makes fatal; the assumption is false but harmless in release builds (see the C41 report).
+    bool aps_sffo{false};
     explicit World(const Options& o, vh::Rng& r) : sim(o), rng(r) {}
 
     CTxDestination WalletDest(int* type_out = nullptr, uint32_t reuse_pct = 25)
@@ -212,7 +216,10 @@ CTransactionRef WalletDoubleSpend(World& w, const COutPoint& op, CAmount value, 
     const bool sffo = w.rng.chance(1, 3);
     rec.push_back({WalletSim::ForeignDest(w.rng, ForeignKind::P2WPKH), sffo ? value : value * static_cast<CAmount>(w.rng.range(20, 60)) / 100, sffo});
     std::string err;
+    const CAmount saved_aps = w.sim.W().m_max_aps_fee;
+    if (sffo && !w.aps_sffo) w.sim.W().m_max_aps_fee = -1;
     auto r = w.sim.Create(rec, std::nullopt, cc, true, &err);
+    w.sim.W().m_max_aps_fee = saved_aps;
     if (!r) {
         vh::log().obs("c44_doublespend_create_failed");
         return nullptr;
@@ -220,11 +227,12 @@ CTransactionRef WalletDoubleSpend(World& w, const COutPoint& op, CAmount value, 
     return r->tx;
 }
 
-void RunBalanceHistory(uint64_t c, vh::Rng& rng, int steps)
+void RunBalanceHistory(uint64_t c, vh::Rng& rng, int steps, bool aps_sffo)
 {
     Options o;
     o.keypool = 30;
     World w(o, rng);
+    w.aps_sffo = aps_sffo;
     WalletSim& sim = w.sim;
     BalStats st;
     std::map<COutPoint, CoinClass> prev_cb;
@@ -320,7 +328,19 @@ void RunBalanceHistory(uint64_t c, vh::Rng& rng, int steps)
                 rec.push_back({d, amt, big && i == 0});
             }
             std::string err;
+            if (getenv("VH_E8_DEBUG")) {
+                fprintf(stderr, "step %d send: avail=%lld unsafe=%d feerate=%lld big=%d", step, (long long)avail, cc.m_include_unsafe_inputs, (long long)cc.m_feerate->GetFeePerK(), big);
+                for (const auto& r_ : rec) fprintf(stderr, " [%lld sffo=%d]", (long long)r_.nAmount, r_.fSubtractFeeFromAmount);
+                fprintf(stderr, "\n");
+                for (const auto& [op_, coin] : L.Coins()) {
+                    if (coin.Unspent()) fprintf(stderr, "   coin %s v=%lld h=%d cls=%s\n", OutpointStr(op_).substr(0, 14).c_str(), (long long)coin.out.nValue, coin.height, ClassName(L.Classify(coin)));
+                }
+            }
+            // subtract-fee request for (nearly) the whole balance: no avoid-partial-spends retry unless --p aps_sffo=1 (see World::aps_sffo)
+            const CAmount saved_aps = sim.W().m_max_aps_fee;
+            if (big && !w.aps_sffo) sim.W().m_max_aps_fee = -1;
             auto r = sim.Create(rec, std::nullopt, cc, true, &err);
+            sim.W().m_max_aps_fee = saved_aps;
             if (r) {
                 sim.Commit(r->tx);
                 ++st.sends;
@@ -559,6 +579,7 @@ struct Request {
     std::string amount_mode, fee_mode, preset_mode;
     int change_type{-1};
     bool dest_change{false};
+    bool no_aps{false}; //!< run with the wallet's avoid-partial-spends retry disabled (m_max_aps_fee = -1)
 };
 
 struct GenOpts {
@@ -757,6 +778,12 @@ Request GenRequest(World& w, const GenOpts& go)
         rq.info.push_back(ri);
     }
     if (rng.chance(3, 10)) rq.change_pos = static_cast<unsigned>(rng.below(nrec + (rng.chance(1, 15) ? 3 : 1)));
+    bool has_sffo = false;
+    for (const auto& r : rq.recips) has_sffo |= r.fSubtractFeeFromAmount;
+    if (!w.aps_sffo && has_sffo && total_target + std::max<CAmount>(50000, 3 * fee_guess) >= budget) {
+        rq.no_aps = true;
+        cc.m_avoid_partial_spends = false;
+    }
     return rq;
 }
 
@@ -791,7 +818,7 @@ std::string JRequest(const Request& rq, WalletSim& sim)
     vh::J j;
     j.raw("recips", vh::JArr(rec)).raw("presets", vh::JArr(pre)).i("feerate", rq.feerate_kvb).b("override", rq.cc.fOverrideFeeRate)
         .b("allow_other", rq.cc.m_allow_other_inputs).b("include_unsafe", rq.cc.m_include_unsafe_inputs).i("min_depth", rq.cc.m_min_depth).i("max_depth", rq.cc.m_max_depth)
-        .b("aps", rq.cc.m_avoid_partial_spends).b("avoid_reuse", rq.cc.m_avoid_address_reuse).i("change_type", rq.change_type).b("dest_change", rq.dest_change)
+        .b("aps", rq.cc.m_avoid_partial_spends).b("no_aps_retry", rq.no_aps).b("avoid_reuse", rq.cc.m_avoid_address_reuse).i("change_type", rq.change_type).b("dest_change", rq.dest_change)
         .i("max_tx_fee", rq.max_tx_fee).b("sign", rq.sign).str("amount_mode", rq.amount_mode).str("fee_mode", rq.fee_mode).str("preset_mode", rq.preset_mode);
     if (rq.dest_change) j.hex("dest_change_spk", GetScriptForDestination(rq.cc.destChange));
     if (rq.change_pos) j.i("change_pos", *rq.change_pos); else j.null("change_pos");
@@ -814,9 +841,12 @@ Created RunRequest(World& w, const Request& rq)
     WalletSim& sim = w.sim;
     Created cr;
     const CAmount saved_max = sim.W().m_default_max_tx_fee;
+    const CAmount saved_aps = sim.W().m_max_aps_fee;
     sim.W().m_default_max_tx_fee = rq.max_tx_fee;
+    if (rq.no_aps) sim.W().m_max_aps_fee = -1;
     auto res = sim.Create(rq.recips, rq.change_pos, rq.cc, rq.sign, &cr.err);
     sim.W().m_default_max_tx_fee = saved_max;
+    sim.W().m_max_aps_fee = saved_aps;
     if (!res) return cr;
     cr.ok = true;
     cr.fee = res->fee;
@@ -941,12 +971,13 @@ void InitialFunding(World& w)
     sim.Sync();
 }
 
-void RunCreateCase(uint64_t c, vh::Rng& rng, int ops, bool allow_tiny)
+void RunCreateCase(uint64_t c, vh::Rng& rng, int ops, bool allow_tiny, bool aps_sffo)
 {
     Options o;
     o.keypool = 30;
     o.avoid_reuse = rng.chance(1, 4);
     World w(o, rng);
+    w.aps_sffo = aps_sffo;
     WalletSim& sim = w.sim;
     InitialFunding(w);
     GenOpts go;
@@ -1024,12 +1055,13 @@ struct BumpStats {
     int64_t attempts{0}, ok{0}, refused_expected{0}, refused_other{0}, skipped{0};
 };
 
-void RunBumpCase(uint64_t c, vh::Rng& rng, int ops)
+void RunBumpCase(uint64_t c, vh::Rng& rng, int ops, bool aps_sffo)
 {
     namespace fb = wallet::feebumper;
     Options o;
     o.keypool = 30;
     World w(o, rng);
+    w.aps_sffo = aps_sffo;
     WalletSim& sim = w.sim;
     InitialFunding(w);
     GenOpts go;
@@ -1390,7 +1422,7 @@ VH_CMD(wallet_balance)
     for (uint64_t c = args.from; c < args.to; ++c) {
         vh::set_case(c);
         vh::Rng rng(args.seed, c);
-        RunBalanceHistory(c, rng, steps);
+        RunBalanceHistory(c, rng, steps, args.geti("aps_sffo", 0) != 0);
     }
     return 0;
 }
@@ -1402,7 +1434,7 @@ VH_CMD(wallet_create)
     for (uint64_t c = args.from; c < args.to; ++c) {
         vh::set_case(c);
         vh::Rng rng(args.seed, c);
-        RunCreateCase(c, rng, ops, tiny);
+        RunCreateCase(c, rng, ops, tiny, args.geti("aps_sffo", 0) != 0);
     }
     return 0;
 }
@@ -1413,7 +1445,7 @@ VH_CMD(wallet_bump)
     for (uint64_t c = args.from; c < args.to; ++c) {
         vh::set_case(c);
         vh::Rng rng(args.seed, c);
-        RunBumpCase(c, rng, ops);
+        RunBumpCase(c, rng, ops, args.geti("aps_sffo", 0) != 0);
     }
     return 0;
 }
